@@ -161,6 +161,38 @@ impl C07 {
                 }
             }
         }
+        // Or-A': what the parser found must also be what is reported (the library entry point sorts
+        // and merges the list before it is shown): checked for every multi-file case and a sample of the others
+        if case.files.len() > 1 || case.files[0].1.len() % 8 == 0 {
+            match adapter::run_entry(&files, &[]) {
+                Ok(reported) => {
+                    ctx.fact("reported_lists_compared", 1);
+                    for e in &parsed.errors {
+                        if !reported.iter().any(|d| d.file == e.file && d.range == e.range && d.title == e.title) {
+                            let (fi, li) = files
+                                .iter()
+                                .position(|(n, _)| *n == e.file)
+                                .map(|fi| (fi, crate::model::TextIndex::new(&files[fi].1).line_col(e.range.start.raw).0))
+                                .unwrap_or((0, 0));
+                            out.push(
+                                Violation::new(format!(
+                                    "the parse error {:?} on line {} of {} is found by the parser but missing from the reported diagnostics {:?}",
+                                    e.title,
+                                    li + 1,
+                                    e.file,
+                                    reported.iter().map(|d| (&d.file, d.range.start.line + 1, &d.title)).collect::<Vec<_>>()
+                                ))
+                                .with("oracle", "A")
+                                .with("line_kind", defect_at(fi, li).map(|d| d.2.kind.clone()).unwrap_or_else(|| "good".into()))
+                                .with("position", "not-reported"),
+                            );
+                            break;
+                        }
+                    }
+                }
+                Err(_) => ctx.skip("c06_panic_in_entry_point"),
+            }
+        }
         // Or-B: delete the defective lines and compare everything else
         if !case.defects.is_empty() {
             let mut remap: BTreeMap<(String, usize), usize> = BTreeMap::new(); // original line -> line in reduced file
